@@ -217,6 +217,9 @@ def make_jobs(ctx):
     jobs += variant_jobs(ctx, "defmem", False, True, False, opts=["-d", "gnu-ld"], prefix="Ggnuld", only=(None if ctx.tier == "thorough" else ["h_memory"]))
     if ctx.tier == "thorough":
         jobs += variant_jobs(ctx, "impmem", True, True, False, opts=["-p"], prefix="Gp")
+    # global.get / global.set emitters at every stack height (the state that "persists across calls" is read and written through them)
+    from ..eexpr import expr_jobs
+    jobs += expr_jobs(ctx, ["global_get", "global_set"])
     return jobs
 
 
